@@ -108,11 +108,17 @@ class _Handler(http.server.BaseHTTPRequestHandler):
         self._reply(200, body)
 
 
+class _Server(http.server.ThreadingHTTPServer):
+    # the threaded dask scheduler opens one connection per worker thread at once; the default backlog of 5 overflows on a
+    # loaded machine and the client sees 'Connection aborted' (S3ServerGlitch) although nothing is wrong with katdal
+    request_queue_size = 128
+
+
 class FakeS3:
     """with FakeS3() as s: s.url, s.objects (path -> bytes), s.buckets, s.requests."""
 
     def __enter__(self):
-        self.srv = http.server.ThreadingHTTPServer(('127.0.0.1', 0), _Handler)
+        self.srv = _Server(('127.0.0.1', 0), _Handler)
         self.srv.daemon_threads = True
         self.srv.objects = {}
         self.srv.buckets = set()
